@@ -35,6 +35,7 @@ class SimTerminal:
         self.al_error = False
         self.al_code = 0
         self.al_pending = None      # [target, polls left]
+        self.al_queue = []          # requests waiting for the pending one
         self.al_latency = lambda frm, to: 0
         self.al_error_at_poll = None
         self.al_polls = 0
@@ -163,7 +164,11 @@ class SimTerminal:
             self.al_code = 0
         if req == self.al_state and not self.al_pending:
             return
-        cur = self.al_state
+        # an ESC handles requests one after the other: a request written
+        # while a transition is still going on starts when that one is done
+        cur = self.al_pending[0] if self.al_pending else self.al_state
+        if self.al_queue:
+            cur = self.al_queue[-1]
         ok = req in ORDER and (
             ORDER.index(req) <= ORDER.index(cur)
             or ORDER.index(req) == ORDER.index(cur) + 1)
@@ -174,10 +179,23 @@ class SimTerminal:
             self.al_code = 0x11      # invalid requested state change
             self.events.append(("al_refused", cur, req))
             return
+        if self.al_pending:
+            self.al_queue.append(req)
+            return
+        self._al_start(cur, req)
+
+    def _al_start(self, cur, req):
         self.al_pending = [req, self.al_latency(cur, req)]
         if self.al_pending[1] == 0:
-            self.al_state = req
-            self.al_pending = None
+            self._al_done()
+
+    def _al_done(self):
+        self.al_state = self.al_pending[0]
+        self.al_pending = None
+        while self.al_queue and self.al_pending is None:
+            req = self.al_queue.pop(0)
+            if req != self.al_state:
+                self._al_start(self.al_state, req)
 
     def al_poll(self):
         self.al_polls += 1
@@ -187,13 +205,11 @@ class SimTerminal:
             self.al_code = 0x1b      # e.g. sync manager watchdog
         if self.al_pending:
             if self.al_pending[1] <= 0:
-                self.al_state = self.al_pending[0]
-                self.al_pending = None
+                self._al_done()
             else:
                 self.al_pending[1] -= 1
                 if self.al_pending[1] == 0:
-                    self.al_state = self.al_pending[0]
-                    self.al_pending = None
+                    self._al_done()
 
     # -- mailbox ---------------------------------------------------------
     def mbx_deliver(self, msg):
